@@ -6,6 +6,8 @@ import (
 
 	"google.golang.org/grpc"
 	"google.golang.org/grpc/metadata"
+
+	"github.com/avos-io/goat/internal"
 )
 
 // unaryServerTransportStream is a minimal grpc.ServerTransportStream.
@@ -64,7 +66,7 @@ func (sts *unaryServerTransportStream) setHeaderLocked(md metadata.MD) error {
 	if sts.headers == nil {
 		sts.headers = metadata.MD{}
 	}
-	sts.headers = metadata.Join(sts.headers, md)
+	sts.headers = internal.JoinMD(sts.headers, md)
 	return nil
 }
 
@@ -86,7 +88,7 @@ func (sts *unaryServerTransportStream) SetTrailer(md metadata.MD) error {
 	if sts.trailers == nil {
 		sts.trailers = metadata.MD{}
 	}
-	sts.trailers = metadata.Join(sts.trailers, md)
+	sts.trailers = internal.JoinMD(sts.trailers, md)
 	return nil
 }
 
